@@ -63,6 +63,11 @@ func c10Symbols() []c10Sym {
 		{"sof2", func(*mc.Exec) gen.Seg { return gen.SegSOF(0xC2) }},
 		{"app1-ff-run", func(*mc.Exec) gen.Seg { return gen.SegFFRun(0xE1) }},
 		{"app14-5000", func(*mc.Exec) gen.Seg { return gen.SegAPPn(14, 5000) }},
+		{"hostile-extreme-length", func(x *mc.Exec) gen.Seg {
+			m := []byte{0xE2, 0xFE, 0xE1, 0xED}[x.All("hostile-marker", 4)]
+			l := []int{0xFFFF - 2, 0xFFFE - 2, 0xFFFD - 2, 0x8000 - 2, 0x7FFF - 2, 0x100 - 2, 0xFF - 2}[x.All("hostile-length", 7)]
+			return gen.SegHostile(m, l)
+		}},
 	}
 }
 
@@ -366,7 +371,7 @@ func init() {
 				n = 3
 			}
 			return []mc.Space{{Name: "marker-sequences", H: c10Harness(n), NoLevels: true, Isolate: true, SplitDepth: 2,
-				Rule: fmt.Sprintf("every sequence of <= %d segments over a 17-symbol alphabet (JFIF, JFXX, Exif min/rich both byte orders, XMP with 7 packet lengths incl. 0, 4096+-1, 65502, XMP extension, ICC, Photoshop, 0xFF runs, nested SOI/EOI, near-Exif, near-XMP, COM, DRI, SOF2, 5000-byte APPn) followed by DQT SOF0 DHT SOS entropy EOI x 6 Exif-callback behaviours x 7 XMP-callback behaviours; trivial = no metadata segment", n)}}
+				Rule: fmt.Sprintf("every sequence of <= %d segments over a 18-symbol alphabet (JFIF, JFXX, Exif min/rich both byte orders, XMP with 7 packet lengths incl. 0, 4096+-1, 65502, XMP extension, ICC, Photoshop, 0xFF runs, nested SOI/EOI, near-Exif, near-XMP, COM, DRI, SOF2, 5000-byte APPn, ignored segments (APP2, COM, non-Exif APP1, APP13) of length 0xFFFF, 0xFFFE, 0xFFFD, 0x8000, 0x7FFF, 0x100, 0xFF filled with marker-looking structure) followed by DQT SOF0 DHT SOS entropy EOI x 6 Exif-callback behaviours x 7 XMP-callback behaviours; trivial = no metadata segment", n)}}
 		},
 		Assumptions: []string{"expected callback arguments and payloads come from the generator's own segment table", "Exif callbacks consume exactly their declared length (the statement's premise); under-consuming Exif callbacks are not explored"},
 	})
